@@ -330,3 +330,61 @@ def self_contained(db, sl, lemma):
     elif a is not None and (a[2] != b[2] or a[3] != b[3]):
         probs.append('lemma-changed')
     return probs
+
+
+def plainly_sliceable(db, lemma, sd=None):
+    """True when every top-level statement up to (and including) the first $p `lemma` has a shape the slicer documents
+    as supported: $c $v $d $f $e $a, flat blocks `${ ($d|$e)* $a $}` (possibly nested towards the axiom) and lemma blocks
+    `${ ($d|$e)* $p $}`, every $p with a compressed proof `( labels ) letters` whose labels are earlier top-level keys.
+    (and whose syntax dependencies `sd`, if given, only name earlier keys).
+    Conservative: used to decide that a MISSING slice is a failure of the implementation, not of the input."""
+    keys = set()
+
+    def ax_block(ss):
+        if not ss or any(x[0] not in 'DE' for x in ss[:-1]):
+            return None
+        last = ss[-1]
+        if last[0] == 'A':
+            return last[1]
+        if last[0] == 'B':
+            return ax_block(last[1])
+        return None
+
+    def compressed_ok(p):
+        pf = list(p[3] or ())
+        if len(pf) < 2 or pf[0] != '(' or ')' not in pf:
+            return False
+        k = pf.index(')')
+        if '(' in pf[1:] or ')' in pf[k + 1:]:
+            return False
+        needed = set(pf[1:k])
+        for l in list(needed):
+            if l.endswith('is-pattern') and l[:-len('is-pattern')] + 'is-sugar' in keys:
+                needed.add(l[:-len('is-pattern')] + 'is-sugar')
+        for l in list(needed):
+            needed |= set((sd or {}).get(l, ()))
+        return all(l in keys for l in needed)
+
+    for s in db:
+        k = s[0]
+        if k in 'CVD':
+            continue
+        if k in 'FEA':
+            keys.add(s[1])
+            continue
+        p = None
+        if k == 'P':
+            p = s
+        elif k == 'B':
+            a = ax_block(s[1])
+            if a is not None:
+                keys.add(a)
+                continue
+            if s[1] and s[1][-1][0] == 'P' and all(x[0] in 'DE' for x in s[1][:-1]):
+                p = s[1][-1]
+        if p is None or not compressed_ok(p):
+            return False
+        if p[1] == lemma:
+            return True
+        keys.add(p[1])
+    return False
